@@ -1099,6 +1099,8 @@ pub trait DeserializeOwned {}
 pub struct SerdeJsonError { _p: u8 }
 /// what serde_json makes of these bytes for the type T (third-party, uninterpreted)
 pub uninterp spec fn json_from_slice_s<T>(b: Seq<u8>) -> core::result::Result<T, SerdeJsonError>;
+/// what serde_json makes of this text (nothing relates it to `json_from_slice_s`: JSON is read from the bytes)
+pub uninterp spec fn json_from_str_s<T>(s: Seq<char>) -> core::result::Result<T, SerdeJsonError>;
 /// crux_http/src/error.rs From<serde_json::Error>: HttpError::Json(e.to_string())
 pub uninterp spec fn json_err_s(e: SerdeJsonError) -> HttpError;
 /// what reading these bytes as JSON gives: serde_json's answer, its error turned into an HttpError by From
@@ -1111,6 +1113,11 @@ pub mod serde_json {
     #[verifier::external_body]
     pub fn from_slice<T: DeserializeOwned>(v: &[u8]) -> (r: core::result::Result<T, SerdeJsonError>)
         ensures r == json_from_slice_s::<T>(v@),
+    { unimplemented!() }
+    // ASSUMED (serde_json::from_str; present only so that a body that parses text instead of the bytes stays within reach)
+    #[verifier::external_body]
+    pub fn from_str<T: DeserializeOwned>(s: &str) -> (r: core::result::Result<T, SerdeJsonError>)
+        ensures r == json_from_str_s::<T>(s@),
     { unimplemented!() }
 }
 impl vstd::std_specs::convert::FromSpecImpl<SerdeJsonError> for HttpError {
